@@ -354,6 +354,7 @@ func driver(args []string) int {
 			confirmed = true // lane B confirms by re-running in a fresh process itself
 		} else {
 			cmd := exec.Command(os.Args[0], "replay", "-file", path, "-inv", f.inv, "-quiet")
+			cmd.Env = append(os.Environ(), "GOMAXPROCS="+gomaxprocsFor(f.workers)) // same as the workers: code that reads it must see the same value
 			out, err := cmd.CombinedOutput()
 			if ee, ok := err.(*exec.ExitError); ok && ee.ExitCode() == 1 {
 				confirmed = true
